@@ -601,6 +601,20 @@ def expand_template(tpl_text: str, repo_root: str, cache: Optional[dict] = None)
     out_lines: List[str] = []
     infos = []
     line_map = []
+    # //@include <path relative to /verif/units> <section>  – paste the text between `// [[<section>` and `// ]]<section>`
+    # of another template (so that a caller is verified against the callee's verified contract, not a copy of it)
+    def _inc(m):
+        import os
+        base = os.path.join(os.path.dirname(os.path.dirname(os.path.abspath(__file__))), "units")
+        txt = open(os.path.join(base, m.group(1))).read()
+        a, b = txt.find("// [[" + m.group(2)), txt.find("// ]]" + m.group(2))
+        if a < 0 or b < 0:
+            raise LostAnchor(f"include section {m.group(2)} not found in {m.group(1)}")
+        return txt[txt.index("\n", a) + 1:b]
+    for _ in range(4):
+        tpl_text, n_inc = re.subn(r"^[ \t]*//@include\s+(\S+)\s+(\S+)[ \t]*$", _inc, tpl_text, flags=re.M)
+        if not n_inc:
+            break
     lines = tpl_text.split("\n")
     i = 0
     while i < len(lines):
